@@ -403,6 +403,17 @@ def feature_families(seed, quick):
                 dict(st, argv=["--ff=SWANSON", "--ffout=PARSE"]),
                 dict(st, argv=["--userff={userff}", "--usernames={usernames}"],
                      files={"userff": "custom-ff.dat", "usernames": "custom.names"}),
+                # the same user force-field file name with different (valid) content
+                dict(st, argv=["--userff={userff}", "--usernames={usernames}"],
+                     files={"userff": "custom-ff.dat", "usernames": "custom.names"},
+                     file_content={"userff": {"kind": "replace",
+                                              "old": "GLY\tCA\t-0.025200\t1.9080",
+                                              "new": "GLY\tCA\t-0.025200\t2.2222"}}),
+                dict(st, argv=["--userff={userff}", "--usernames={usernames}"],
+                     files={"userff": "custom-ff.dat", "usernames": "custom.names"},
+                     file_content={"userff": {"kind": "replace",
+                                              "old": "ALA\tCB\t-0.182500\t1.9080",
+                                              "new": "ALA\tCB\t-0.182500\t2.3333"}}),
                 dict(st, argv=["--ff=AMBER", "--assign-only"]),
                 dict(st, argv=["--clean"])]
         fams.append(fam)
@@ -981,7 +992,9 @@ def main(tier, seed):
         r3.shuffle(order)
         sub = [pool[i] for i in fam]
         ops = [{"op": "run", "cfg_index": j, "entry": "run_pdb2pqr"} for j in order + order[::-1]]
-        if fi % 2:
+        if fi % 2 or any(c.get("file_content") for c in sub):
+            # in place: same paths, new contents (always for families whose members differ
+            # only in the CONTENT of an auxiliary file)
             for op in ops:
                 op["stable"] = True
         for op in ops[len(ops) // 2:]:
